@@ -9,7 +9,10 @@
 
    Data
      store  db   : [Names -> [imports : Seq(Names \cup {"X"}), cols : Seq(Col)]]
-     Col         : [cd : {"c1","c2"}, en : BOOLEAN, apis : Seq(Api)]   cd = CollectionData
+     Col         : [cd : CDs, en : BOOLEAN, apis : Seq(Api)]   cd = CollectionData: "c1" = {jsonrpc,POST},
+                   "c2" = {rest,GET}, "c1/p1", "c1/p2" = c1 with InternalPath /p1, /p2 (keys that differ
+                   ONLY in the internal path: the order of inherited collections must not depend on
+                   Go's map iteration order for them either)
      Api         : [n : name, cu : compute units, en : BOOLEAN]          Equal = record equality
    Only the API list of a collection is enumerated; headers, parse directives, extensions and
    verifications go through the same generic CombineFields/CombineUnique code.  Inheritance
@@ -32,7 +35,7 @@
    the outcome recorded from the real keeper (Trace_SpecExpand). *)
 EXTENDS Integers, Sequences, FiniteSets, TLC, Json
 
-CONSTANTS Family,   \* which inputs Init enumerates: "graphs" | "content" | "all"
+CONSTANTS Family,   \* which inputs Init enumerates: "graphs" | "content" | "paths" | "all"
           MaxImp,   \* graphs: longest import list
           Ordered,  \* graphs: TRUE = import lists in every order, FALSE = sorted lists only
           Shapes,   \* content: "core" (hand-picked import shapes) | "mini" (chain, fan, diamond) | "dag" (all 64 sorted DAGs)
@@ -44,7 +47,9 @@ vars == <<inp, out>>
 
 AllNames == <<"A", "B", "C", "D", "X">>
 Names    == {"A", "B", "C", "D"}
-CDs      == <<"c1", "c2">>          \* sorted as CollectionData.String() sorts them
+\* sorted as CollectionData.String() sorts them (api_interface, internal_path, type, add_on; the
+\* text of a key without internal path continues with `type:`, which sorts after `internal_path:`)
+CDs      == <<"c1/p1", "c1/p2", "c1", "c2">>
 MinCU    == 1
 MaxCU    == 50
 
@@ -250,9 +255,23 @@ C2Opts(lv) == IF lv < 3 THEN {<<>>}
 ColOpts(lv) == {x \o y : x \in C1Opts(lv), y \in C2Opts(lv)} \cup {y \o x : x \in C1Opts(lv) \ {<<>>}, y \in C2Opts(lv) \ {<<>>}}
 ContentInputs == {[s \in Names |-> Spec(sh[s], c[s])] : sh \in ShapeSet, c \in [Names -> ColOpts(Level)]}
 
+\* paths: collections that differ only in the internal path, inherited through A -> B, A -> {B,C},
+\* A -> B -> C; every spec holds any subset of {c1/p1, c1/p2, c1} (B also in descending order), A's
+\* own ones override, the rest is inherited through CombineCollections (>= 2 tied keys)
+PathCDs == <<"c1/p1", "c1/p2", "c1">>
+Rev(q) == [i \in 1..Len(q) |-> q[Len(q) + 1 - i]]
+PathColsAsc == {[i \in 1..Len(sel) |-> Col(sel[i], TRUE, <<Api("a", 10, TRUE)>>)] :
+                   sel \in {SelectSeq(PathCDs, LAMBDA c : c \in S) : S \in SUBSET Range(PathCDs)}}
+PathCols(s) == IF s = "B" THEN UNION {{q, Rev(q)} : q \in PathColsAsc} ELSE PathColsAsc
+PathShapes == {Shape(<<"B">>, <<>>, <<>>, <<>>), Shape(<<"B", "C">>, <<>>, <<>>, <<>>), Shape(<<"B">>, <<"C">>, <<>>, <<>>)}
+PathInputs == {[s \in Names |-> Spec(sh[s], IF s = "D" THEN <<>> ELSE c[s])] :
+                  sh \in PathShapes, c \in {f \in [{"A", "B", "C"} -> UNION {PathCols(x) : x \in {"A", "B"}}] :
+                                            \A x \in {"A", "B", "C"} : f[x] \in PathCols(x)}}
+
 Inputs == CASE Family = "graphs"  -> GraphInputs
             [] Family = "content" -> ContentInputs
-            [] OTHER              -> GraphInputs \cup ContentInputs
+            [] Family = "paths"   -> PathInputs
+            [] OTHER              -> GraphInputs \cup ContentInputs \cup PathInputs
 
 \* The work is done by the action Run (not by Init) so that TLC's workers share it.
 Init == inp \in Inputs /\ out = <<>>
